@@ -19,7 +19,7 @@ for p in props:
             "evidence_file": "evidence/%s.json" % p,
             "replay_cmd_template": "python3 bin/check --replay {path}",
             "engine": "cbmc-contracts",
-            "level_claimed": {"category": "proof", "text": t.get("text", ""), "design_ref": t.get("design_ref", "DESIGN.md §5")},
+            "level_claimed": {"category": t.get("category", "proof"), "text": t.get("text", ""), "design_ref": t.get("design_ref", "DESIGN.md §5")},
             "level_note": t.get("note", ""),
             "technique": t.get("technique", "contract-based deductive verification: CBMC code contracts enforced per function (goto-instrument), discharged by SAT"),
         })
